@@ -114,6 +114,7 @@ def rules(ctx):
     path_exchange_filters_vehicles(ctx)
     hitch_hiking_refuses_conflicts(ctx)
     free_track_filter(ctx)
+    swap_stages_chain(ctx)
     from .C15 import inf_conversions
     inf_conversions(ctx, "R3")        # cached counters of candidates use one substitute for 'infinitely far'
     # R3: candidates only through the modification API
@@ -208,6 +209,39 @@ def hitch_hiking_refuses_conflicts(ctx, rid="R2"):
                "from the vehicle's tour vanish from the candidate (no dummy tour, no refusal)", loc=ap[0].line())
 
 
+def swap_stages_chain(ctx, rid="R2"):
+    """a swap that applies several modifications applies each one to the RESULT of the previous one: the schedule a later step works on
+    derives from the schedule the earlier step returned"""
+    API = {S("remove_segment"), S("add_path_to_vehicle_tour"), S("spawn_vehicle_for_path"), S("override_reassign"), S("fit_reassign"),
+           S("spawn_vehicle_to_replace_dummy_tour"), S("replace_vehicle_by_dummy")}
+    for k in swap_apply_keys(ctx):
+        fd = ctx.fd(k)
+        if fd is None:
+            continue
+        steps = [c for c in fd.body.calls() if c.callee in API]
+        if len(steps) < 2:
+            continue
+        name = k.split(" as ")[0].split("::")[-1] if " as " in k else k.split("::")[-2]
+        o = ctx.ob("%s.%s.steps-build-on-each-other" % (rid, name), "T4", k,
+                   "%s: every modification is applied to the schedule returned by the modification before it" % name)
+        bad = None
+        for c2 in steps:
+            earlier = [c1 for c1 in steps if c1 is not c2 and fd.cfg.instr_dominates(c1, c2)]
+            if not earlier:
+                continue
+            last = [c1 for c1 in earlier if not any(c3 is not c1 and fd.cfg.instr_dominates(c1, c3) for c3 in earlier)]
+            recv = fd.slice_operand_pure(c2, c2.args[0])
+            if not any(d.instr is c1 for c1 in last for d in recv["defs"]):
+                bad = (c2, last[0])
+                break
+        if bad:
+            ctx.bad(o, "%s at %s is applied to a schedule that does not come from %s at %s: the effect of that step (and what it handed back) is "
+                    "missing from the candidate" % ((bad[0].callee or "").split("::")[-1], bad[0].line(), (bad[1].callee or "").split("::")[-1],
+                                                     bad[1].line()), loc=bad[0].line())
+        else:
+            ctx.ok(o, "%d steps, each on the previous result" % len(steps))
+
+
 def free_track_filter(ctx, rid="R2"):
     """maintenance spawning is offered for slots with a FREE track: vehicle_count < track_count (strict); the sort key that follows divides
     by the track count, which the strict test also keeps away from zero"""
@@ -231,6 +265,35 @@ def free_track_filter(ctx, rid="R2"):
                 found.append((ins, ins.rv["op"]))
             elif cnt in b and lim in a and cnt not in a:
                 found.append((ins, {"Lt": "Gt", "Gt": "Lt", "Le": "Ge", "Ge": "Le"}[ins.rv["op"]]))
+    # the list that is sorted by workload (vehicle_count * k / track_count) has been filtered before: a slot without tracks never
+    # reaches the division
+    o2 = ctx.ob("%s.workload-key-sees-filtered-slots" % rid, "T10", key,
+                "the slots sorted by workload (a division by the track count) have passed the free-track filter")
+    sorts = [c for c in fd0.body.calls() if (c.callee or "").split("::")[-1] in ("sort_by_key", "sort_by_cached_key", "sort_unstable_by_key")]
+    divides = False
+    for k in ctx.prog.family(key):
+        b = ctx.prog.bodies[k]
+        if any(i.kind == "assign" and i.rv_kind() == "binop" and i.rv["op"] in ("Div", "Rem") for i in b.instrs()) \
+                and any(c.callee == N("track_count_of_maintenance_slot") for c in b.calls()):
+            divides = True
+    if not sorts or not divides:
+        ctx.undecided(o2, "no sort by a key that divides by the track count")
+    else:
+        ok_all = True
+        for sc in sorts:
+            ch = [x.split("::")[-1] for x in direct_chain(fd0, sc.args[0])]
+            if not any(x in ("filter", "filter_map", "retain") for x in ch):
+                # retain(..) on the same vector before the sort is fine as well
+                root = direct_chain(fd0, sc.args[0], want_root=True)[1]
+                kept = [c for c in fd0.body.calls() if (c.callee or "").endswith("::retain") and fd0.cfg.instr_dominates(c, sc)
+                        and direct_chain(fd0, c.args[0], want_root=True)[1] == root]
+                if not kept:
+                    ok_all = False
+                    ctx.bad(o2, "the vector sorted at %s was not filtered before: the sort key divides by the track count of every maintenance "
+                            "slot, also of one with 0 tracks (attempt to divide by zero while candidates are generated)" % sc.line(), loc=sc.line())
+                    break
+        if ok_all:
+            ctx.ok(o2, "%d sort(s) over a filtered list" % len(sorts))
     if not found:
         ctx.undecided(o, "no comparison of the vehicle count with the track count found")
     elif any(op == "Le" for _, op in found):
